@@ -143,6 +143,8 @@ type C16Case struct {
 	Envs    []C16Env `json:"envs"`
 	Batch   int      `json:"batch"` // settle after this many envelopes (<=12)
 	Ser     bool     `json:"ser"`
+	// ConcAttach: further peers attach from another goroutine while envelopes are flowing (race workloads)
+	ConcAttach bool `json:"conc_attach,omitempty"`
 }
 
 func genC16(t *rapid.T) C16Case {
@@ -303,6 +305,17 @@ func execC16(t *testing.T, c C16Case) (v Verdict) {
 				got[n] = append(got[n], w.link(n).A.ReadAvailable()...)
 			}
 		}
+		attached := make(chan struct{})
+		if c.ConcAttach {
+			go func() {
+				defer close(attached)
+				for i := 0; i < 4; i++ {
+					w.attach(fmt.Sprintf("late%d", i))
+				}
+			}()
+		} else {
+			close(attached)
+		}
 		for i, e := range c.Envs {
 			l := w.link(e.From)
 			_ = l.A.Write(context.Background(), c16Build(e))
@@ -312,6 +325,7 @@ func execC16(t *testing.T, c C16Case) (v Verdict) {
 			}
 		}
 		kit.Settle()
+		<-attached
 		collect()
 		drops = goat.VerifCounter("proxy.drop") - drops0
 		w.cancel()
